@@ -7,7 +7,9 @@ RULE = ("one evaluation = one queue call made by a real StdScheduler (execution 
         "single faults exhaustively (the k-th queue call, k = 0..119 counting loop-side and API calls together, fails / is slow); bursts (every loop-side call of "
         "{Pop},{Push},{Size},{Head},{Pop,Head},{all four} fails / is slow for 400 ms, and fails for 30/60/90 ms so that the back-off is still running when the faults "
         "stop); spurious-empty windows (for 400/30/60/90 ms Size() reports 1 or 3 while Head() and Pop() return an error wrapping quartz.ErrQueueEmpty: nothing 'fails' "
-        "in the loop's eyes, so only calculateNextTick's RetryInterval keeps it from spinning); 60 seeded random mixes (per-call failure probability 0.05..0.9, delay probability 0..0.2, operation subsets, loop/API side). Every plan runs in a "
+        "in the loop's eyes, so only calculateNextTick's RetryInterval and the returned empty Pop keep it from spinning); empty-pop windows (for 400/30/60/90 ms Size() and Head() answer truthfully "
+        "- three stored jobs, the head due - while Pop() returns an error wrapping quartz.ErrQueueEmpty, as when another node of a shared queue claims the head); "
+        "60 seeded random mixes (per-call failure probability 0.05..0.9, delay probability 0..0.2, operation subsets, loop/API side). Every plan runs in a "
         "supervised child process (a panic or a hang is attributed to the plan). Judged per plan by the harness's own oracle: no panic, no hang (20 s), every "
         "API call returns within 2 s, an API call returns an error that errors.Is the injected one exactly when one of its own queue calls was made to fail, no "
         "fire time handed out by a trigger is taken for execution twice and no job runs more often than fire times were taken, at most 200 loop-side queue "
@@ -39,6 +41,17 @@ def run(ctx):
     generic.fill_coverage(ctx, results, RULE)
     ctx.coverage["traces_validated_against_impl"] = 0
     ctx.coverage["note"] = "fault-injection property: stats.json only, no ops.txt/impl.txt; the harness's own oracle judges the real code"
+    ctx.coverage["observations"] = [
+        "retries separated by an interrupt token are allowed by the formalisation and are not counted against the burst limit: the harness makes no API call "
+        "during a burst window, so the only tokens inside it are the loop's own Reset() after a successful push-back (a failing Head() with working Pop()/Push() "
+        "therefore shows 6 loop-side calls per RetryInterval, 48 per 400 ms, the observed maximum). On the real scheduler a failing Size()/Head() IS retried on every "
+        "interrupt, i.e. at the rate of mutating API calls (bounded by the callers, not by RetryInterval); only the Pop()/Push() back-off (retryAt) is immune to "
+        "interrupts (C15_backoff, C15_deadline_not_postponed)",
+        "an empty Pop() counts as a queue failure only if Size(), asked again under the queue lock, does not answer 0 (C15_honest_empty_pop); a queue whose Size() "
+        "alternates between non-zero at the top of the loop and zero inside fetchAndReschedule while its due head cannot be popped would still spin: excluded by "
+        "the hypothesis size2 != 0 of C15_no_spin_on_empty_pop, not exercised by the harness",
+        "PauseJob/ResumeJob over a failing Push() lose the job (Remove succeeded, error returned): allowed by the wording of C15, recorded as an observation",
+    ]
     ok = [r for r in results if not r.get("failed")]
     if ok:
         ctx.coverage["plans"] = sum(r["stats"].get("plans", 0) for r in ok)
